@@ -186,6 +186,21 @@ NEEDS = {
  "C17l": "HELD-OUT 7: supergates of a circuit whose only reconvergence closes directly at a fan-out-free output gate (n -> m -> a -> o and n -> o): has_reconvergent_fanout misses it and the 'tree fast path' drops the forward dominator edges",
  "C18l": "HELD-OUT 7: acyclic_unroll with two feedback nodes on overlapping loops, the later one (set order, PYTHONHASHSEED) keeping an edge to an xor/xnor load that also gets aux_in: the operand is doubled and lost",
  "C19l": "HELD-OUT 7: tx.supergates on a circuit with all fan-ins <= 2, one output whose cone is the whole circuit, and another output: limit_fanin copy skipped + cone not rebuilt, so set_output clears the caller's other output marks",
+ "C01m": "HELD-OUT 8: a blackbox input pin driven by a constant-0 node (.rst(1'b0)), or a gate whose operands are all constants of its identity value: cnf drops identity constants from the fan-in before encoding, bb_input pins included",
+ "C03m": "HELD-OUT 8: gate-primitive round trip of a circuit with a one-input and/nand/or/nor/xor/xnor gate: the writer prints it as buf/not, the identical-graph clause fails",
+ "C04m": "HELD-OUT 8: two solve calls on the SAME miter object with different assumptions (sat False, then sat True): cnf is memoised per circuit object and construct_solver appends the assumptions to the kept formula",
+ "C05m": "HELD-OUT 8: limit_fanout on a net whose loads include blackbox input pins (clk of inserted flops, a RAM enable): pins are never moved, the node keeps more than k loads",
+ "C06m": "HELD-OUT 8: add_subcircuit (strip_io) of a child with a feed-through pin (input that is also an output): the spliced node keeps its output mark in the parent",
+ "C07m": "HELD-OUT 8: fill_blackbox with a model exporting a nested blackbox output pin that also drives a buffer inside the model, where that buffer and the load of the replaced pin in the parent have the SAME name: the load sets are united by name and count as one",
+ "C08m": "HELD-OUT 8: two parity gates of fan-in >= 3 (different widths) reducing a shared operand pair in opposite order (PYTHONHASHSEED, about 3 % of the seeds on the demo): the second gate's helper gets no clauses",
+ "C09m": "HELD-OUT 8: sequential_unroll(remove_unloaded=False) of >= 2 flops whose type has an unread second output pin (QN): only the last flop's QN io is removed",
+ "C10m": "HELD-OUT 8: ternary of a circuit with a constant-1 node: its companion is a constant 1 (the node is reported X)",
+ "C11m": "HELD-OUT 8: influence / sensitization_transform(endpoints=...) called, the circuit edited in place keeping node and edge counts (set_type, rewire), then the same query again: a one-entry memo of the endpoint cone is reused",
+ "C15m": "HELD-OUT 8: bench text with an OR/NOR gate whose operand list repeats an operand (OR(a, b, a), nor(a, a)): the reader's parity cancellation also hits or/nor (substring test)",
+ "C16m": "HELD-OUT 8: remove_unloaded on a dead fork (one dead driver with two or more dead loads): the right nodes are deleted but the returned list names some of them twice",
+ "C17m": "HELD-OUT 8: supergates of a circuit whose only gates wider than 2 inputs are fan-out free (a wide OR as primary output): limit_fanin is skipped",
+ "C18m": "HELD-OUT 8: acyclic_unroll with two cut nodes one of which directly drives the other: aux_in no longer re-drives loads that are cut nodes themselves",
+ "C19m": "HELD-OUT 8: tx.relabel with a mapping that renames nothing (identity mapping, absent keys, {}): the result wraps the argument's own graph",
  "C18d": "(helper: Circuit.disconnect testing `u in us` with a single name, i.e. a substring test) a cut feedback node whose name contains the name of another driver of one of its loads (n12 / n1)",
  "C19c": "influence/avg_sensitivity with supergates=True and a peer failure in the middle (solver raises, pysat unimportable, approxmc missing or exit 1)",
  "C19": "tx.subcircuit asked for ALL nodes of a blackbox-free circuit (directly or through sensitization_transform / influence with an endpoint whose cone is the whole circuit), then any edit or the internal set_output",
@@ -228,7 +243,9 @@ def main():
         if not os.path.isfile(os.path.join(d, "patch.diff")) or (only and sid not in only):
             continue
         prop = sid[:3]
-        if sid.endswith("l"):
+        if sid.endswith("m"):
+            src2 = " (round 13, eighth held-out measurement)"
+        elif sid.endswith("l"):
             src2 = " (round 12, seventh held-out measurement)"
         elif sid.endswith("k"):
             src2 = " (round 11, sixth held-out measurement, after audit round 2)"
